@@ -118,7 +118,13 @@ func mX509KeyPair(c, k []byte) (tls.Certificate, error) {
 func mNewCertPool() *x509.CertPool { return new(x509.CertPool) }
 
 //verif:model (*crypto/x509.CertPool).AppendCertsFromPEM
-func mAppendCerts(p *x509.CertPool, pem []byte) bool { poolPEM[p] = append(poolPEM[p], string(pem)); return true }
+func mAppendCerts(p *x509.CertPool, pem []byte) bool {
+	if string(pem) != "CLIENTCERTPEM" { // the one parsable certificate of this run; anything else (empty, damaged) adds nothing
+		return false
+	}
+	poolPEM[p] = append(poolPEM[p], string(pem))
+	return true
+}
 
 //verif:model (*encoding/base64.Encoding).EncodeToString
 func mEncodeToString(e *base64.Encoding, b []byte) string { return "B64(" + string(b) + ")" }
@@ -160,9 +166,13 @@ func mTLSNewListener(inner net.Listener, c *tls.Config) net.Listener {
 
 func harnessC12serve() {
 	vSetenv("COOKIE", "V")
-	auto := vChoice(2) == 1
-	if auto {
+	mode := vChoice(3)
+	auto := mode >= 1
+	switch mode {
+	case 1:
 		vSetenv("PLUGIN_CLIENT_CERT", "CLIENTCERTPEM")
+	case 2:
+		vSetenv("PLUGIN_CLIENT_CERT", "-----BEGIN CERTIFICATE-----") // set, but damaged on the way: not a parsable certificate
 	}
 	opts := &ServeConfig{
 		HandshakeConfig: HandshakeConfig{ProtocolVersion: 1, MagicCookieKey: "COOKIE", MagicCookieValue: "V"},
@@ -183,6 +193,12 @@ func harnessC12serve() {
 	vAssert(isRm && rl.Listener == net.Listener(listeners[0]), "C12: what is wrapped is the plugin's main listener")
 	c := tlsWrapped
 	vAssert(c.ClientAuth == tls.RequireAndVerifyClientCert, "C12: the plugin requires and verifies a client certificate")
+	if mode == 2 {
+		vCover("damaged-cert")
+		vAssert(c.ClientCAs != nil && len(poolPEM[c.ClientCAs]) == 0, "C12: with a damaged client certificate no client CA is accepted at all (fails closed)")
+		vAssert(!c.InsecureSkipVerify && c.VerifyPeerCertificate == nil && c.GetConfigForClient == nil, "C12: no field weakens verification")
+		vDone()
+	}
 	vAssert(c.ClientCAs != nil && len(poolPEM[c.ClientCAs]) == 1 && poolPEM[c.ClientCAs][0] == "CLIENTCERTPEM", "C12: the only accepted client CA is the certificate the host sent")
 	vAssert(c.RootCAs == c.ClientCAs, "C12: same pool for both directions")
 	vAssert(len(c.Certificates) == 1, "C12: the plugin presents its one generated certificate")
